@@ -105,10 +105,13 @@ def gen_vec(rng, n_ops, elem=None, cont="vec", small_n=None):
         else:
             opts = ["mctor", "swap", "swap"]
             if cont == "vec":
-                opts += ["massign"]
+                opts += ["massign", "detach"]
             if copy_ok:
                 opts += ["cctor"] + (["assign", "assign"] if cont == "vec" else [])
             o = rng.choice(opts)
+            if o == "detach":
+                lines.append("detach %d" % r); sim.size[r] = 0; sim.cap[r] = 0
+                continue
             lines.append("%s %d %d" % (o, r, s))
             if o in ("cctor", "assign"):
                 if not (o == "cctor" and r == s):
@@ -219,7 +222,7 @@ def gen_ilist(rng, n_ops):
         return [x for x in range(1, NOBJ + 1) if x not in L[0] and x not in L[1]]
     for _ in range(n_ops):
         l = rng.choice([0, 0, 1])
-        k = rng.choices(["pf", "pb", "ins", "erase", "popf", "popb", "clear", "splice", "bad"], [2, 2, 5, 4, 1, 1, 0.3, 1.5, 0.25])[0]
+        k = rng.choices(["pf", "pb", "ins", "erase", "popf", "popb", "clear", "splice", "bad"], [2, 2, 5, 4, 1, 1, 0.8, 1.5, 0.25])[0]
         fr = free()
         if k in ("pf", "pb"):
             if not fr:
@@ -255,7 +258,11 @@ def gen_ilist(rng, n_ops):
             if k == "popf": L[l].pop(0)
             else: L[l].pop()
         elif k == "clear":
-            lines.append("clear %d" % l); L[l] = []
+            if rng.random() < 0.6:
+                p = rng.randrange(2)
+                lines.append("filter %d %d" % (l, p)); L[l] = [x for x in L[l] if x % 2 != p]
+            else:
+                lines.append("clear %d" % l); L[l] = []
         elif k == "splice":
             lines.append("splice %d %d" % (l, 1 - l)); L[l] += L[1 - l]; L[1 - l] = []
         else:
@@ -311,6 +318,12 @@ def corpus():
     cs.append(("corpus-eq-double", ["type vec dbl", "push 0 0", "push 1 1", "eq 0 1", "push 0 2", "assign 1 0", "eq 0 1", "eq 1 0", "eq 0 0",
                                     "clear 0", "clear 1", "push 0 3", "push 1 4", "eq 0 1", "push 2 7", "assign 0 2", "eq 0 2"]))
     cs.append(("corpus-eq-pod", ["type vec pod", "push 0 5", "push 1 6", "eq 0 1", "push 0 9", "push 1 13", "eq 0 1", "assign 2 0", "eq 2 0", "push 2 1", "eq 2 0"]))
+    # detach(): the vector must be a fresh empty vector afterwards (capacity 0), also after travelling through move/swap
+    cs.append(("corpus-detach-reuse", ["type vec tv", "push 0 1", "push 0 2", "push 0 3", "detach 0", "push 0 4", "emplace 0 5", "detach 0", "resize 0 3",
+                                       "push 1 7", "detach 1", "swap 1 2", "push 2 8", "detach 0", "mctor 1 0", "push 1 9", "detach 2", "massign 0 2", "pushm 0 6"]))
+    cs.append(("corpus-detach-int", ["type vec int", "push 0 1", "push 0 2", "detach 0", "push 0 3", "detach 0", "detach 0", "resize 0 2"]))
+    # post-increment of intrusive_list::iterator: erase(it++) filter loops
+    cs.append(("corpus-ilist-postinc", ["type ilist -", "pb 0 1", "pb 0 2", "pb 0 3", "pb 0 4", "pb 0 5", "filter 0 0", "pb 0 2", "filter 0 1", "pb 1 6", "pb 1 4", "filter 1 0", "filter 1 1"]))
     # trivially destructible element with user-provided copy/move (self pointer): every relocation must go through the constructors
     cs.append(("corpus-cursor-vec", ["type vec cur"] + ["push 0 %d" % i for i in range(1, 8)] + ["idx 0 0", "assign 1 0", "massign 2 1", "swap 0 2", "resize 2 20", "eq 0 2"]))
     cs.append(("corpus-cursor-sv", ["type sv cur 2", "push 0 1", "push 0 2", "push 1 7", "swap 0 1", "push 0 3", "push 0 4", "mctor 2 0", "cctor 1 2", "resize 1 9", "idx 1 0"]))
